@@ -2,66 +2,72 @@
  * of the returned element" and "a definite answer is true of the point sets".  Exactness of the answers and
  * tightness of the results are NOT demanded here (C03 allows enlargement), so a change that only loses
  * precision is not an alarm.  Representation invariant: box_wf holds again after every operation.
- * See box_base.h for the abstract view.
+ * See box_base.h for the abstract view.  In the clause macros x and y are the operands (&G_bx, &G_by),
+ * R the returned value, v the variable index of unconstrain().
  */
 #ifndef VERIF_C03_BOX_H
 #define VERIF_C03_BOX_H
 #include "box_base.h"
-#if defined(VERIF_CBMC)
 /* every operation leaves its operands well formed and never cuts points away from them */
 #define KEEP_X  POST(x_wf, box_wf(x, G_xs)) POST(x_keeps_its_points, !G_satX0 || box_sat(x, G_xs))
 #define KEEP_Y  POST(y_wf, box_wf(y, G_ys)) POST(y_keeps_its_points, !G_satY0 || box_sat(y, G_ys))
+#define SETS_CONTAIN (G_emptyY0 || (!G_emptyX0 && ALLK(set_contains(&G_xs[0], &G_ys[0]), set_contains(&G_xs[1], &G_ys[1]))))
+#define SETS_EQUAL   (G_emptyX0 ? G_emptyY0 : (!G_emptyY0 && ALLK(set_eq(&G_xs[0], &G_ys[0]), set_eq(&G_xs[1], &G_ys[1]))))
 
-_Bool FN_b_is_empty(const BOX_T *x) PRE_BX ASSIGNS(FRAME_B)
-  POST(definite, !RET || G_emptyX0) KEEP_X;
-_Bool FN_b_is_universe(const BOX_T *x) PRE_BX ASSIGNS(FRAME_B)
-  POST(definite, !RET || (!G_emptyX0 && ALLK(itv_universe(&G_xs[0]), itv_universe(&G_xs[1])))) KEEP_X;
-_Bool FN_b_is_bounded(const BOX_T *x) PRE_BX ASSIGNS(FRAME_B)
-  POST(definite, !RET || G_emptyX0 || ALLK(itv_bounded(&G_xs[0]), itv_bounded(&G_xs[1]))) KEEP_X;
-_Bool FN_b_is_discrete(const BOX_T *x) PRE_BX ASSIGNS(FRAME_B)
-  POST(definite, !RET || G_emptyX0 || ALLK(is_singleton_set(&G_xs[0]), is_singleton_set(&G_xs[1]))) KEEP_X;
-_Bool FN_b_is_topologically_closed(const BOX_T *x) PRE_BX ASSIGNS(FRAME_B)
-  POST(definite, !RET || G_emptyX0 || ALLK(itv_closed(&G_xs[0]), itv_closed(&G_xs[1]))) KEEP_X;
-
-_Bool FN_b_contains(const BOX_T *x, const BOX_T *y) PRE_BXY ASSIGNS(FRAME_B)
-  POST(definite, !RET || !G_satY0 || G_satX0)
-  POST(definite_sets, !RET || G_emptyY0 || (!G_emptyX0 && ALLK(set_contains(&G_xs[0], &G_ys[0]), set_contains(&G_xs[1], &G_ys[1]))))
-  KEEP_X KEEP_Y;
-_Bool FN_b_strictly_contains(const BOX_T *x, const BOX_T *y) PRE_BXY ASSIGNS(FRAME_B)
-  POST(definite, !RET || !G_satY0 || G_satX0)
-  POST(definite_sets, !RET || ((G_emptyY0 || (!G_emptyX0 && ALLK(set_contains(&G_xs[0], &G_ys[0]), set_contains(&G_xs[1], &G_ys[1]))))
-                               && !(G_emptyX0 ? G_emptyY0 : (!G_emptyY0 && ALLK(set_eq(&G_xs[0], &G_ys[0]), set_eq(&G_xs[1], &G_ys[1]))))))
-  KEEP_X KEEP_Y;
-_Bool FN_b_is_disjoint_from(const BOX_T *x, const BOX_T *y) PRE_BXY ASSIGNS(FRAME_B)
-  POST(definite, !RET || !(G_satX0 && G_satY0))
-  POST(definite_sets, !RET || G_emptyX0 || G_emptyY0 || ANYK(set_disjoint(&G_xs[0], &G_ys[0]), set_disjoint(&G_xs[1], &G_ys[1])))
-  KEEP_X KEEP_Y;
-_Bool FN_b_equal(const BOX_T *x, const BOX_T *y) PRE_BXY ASSIGNS(FRAME_B)
-  POST(definite, !RET || (G_satX0 == G_satY0))
-  POST(definite_sets, !RET || (G_emptyX0 ? G_emptyY0 : (!G_emptyY0 && ALLK(set_eq(&G_xs[0], &G_ys[0]), set_eq(&G_xs[1], &G_ys[1])))))
-  KEEP_X KEEP_Y;
-
-void FN_b_intersection(BOX_T *x, const BOX_T *y) PRE_BXY ASSIGNS(FRAME_B)
-  POST(contains_meet, !(G_satX0 && G_satY0) || box_sat(x, G_xs))
-  POST(x_wf, box_wf(x, G_xs)) KEEP_Y;
-void FN_b_upper_bound(BOX_T *x, const BOX_T *y) PRE_BXY ASSIGNS(FRAME_B)
-  POST(contains_join, !(G_satX0 || G_satY0) || box_sat(x, G_xs))
-  POST(x_wf, box_wf(x, G_xs)) KEEP_Y;
+#define C_b_is_empty_POSTS(R) \
+  POST(definite, !(R) || G_emptyX0) KEEP_X
+#define C_b_is_universe_POSTS(R) \
+  POST(definite, !(R) || (!G_emptyX0 && ALLK(itv_universe(&G_xs[0]), itv_universe(&G_xs[1])))) KEEP_X
+#define C_b_is_bounded_POSTS(R) \
+  POST(definite, !(R) || G_emptyX0 || ALLK(itv_bounded(&G_xs[0]), itv_bounded(&G_xs[1]))) KEEP_X
+#define C_b_is_discrete_POSTS(R) \
+  POST(definite, !(R) || G_emptyX0 || ALLK(is_singleton_set(&G_xs[0]), is_singleton_set(&G_xs[1]))) KEEP_X
+#define C_b_is_topologically_closed_POSTS(R) \
+  POST(definite, !(R) || G_emptyX0 || ALLK(itv_closed(&G_xs[0]), itv_closed(&G_xs[1]))) KEEP_X
+#define C_b_contains_POSTS(R) \
+  POST(definite, !(R) || !G_satY0 || G_satX0) \
+  POST(definite_sets, !(R) || SETS_CONTAIN) KEEP_X KEEP_Y
+#define C_b_strictly_contains_POSTS(R) \
+  POST(definite, !(R) || !G_satY0 || G_satX0) \
+  POST(definite_sets, !(R) || (SETS_CONTAIN && !SETS_EQUAL)) KEEP_X KEEP_Y
+#define C_b_is_disjoint_from_POSTS(R) \
+  POST(definite, !(R) || !(G_satX0 && G_satY0)) \
+  POST(definite_sets, !(R) || G_emptyX0 || G_emptyY0 || ANYK(set_disjoint(&G_xs[0], &G_ys[0]), set_disjoint(&G_xs[1], &G_ys[1]))) KEEP_X KEEP_Y
+#define C_b_equal_POSTS(R) \
+  POST(definite, !(R) || (G_satX0 == G_satY0)) \
+  POST(definite_sets, !(R) || SETS_EQUAL) KEEP_X KEEP_Y
+#define C_b_intersection_POSTS(R) \
+  POST(contains_meet, !(G_satX0 && G_satY0) || box_sat(x, G_xs)) \
+  POST(x_wf, box_wf(x, G_xs)) KEEP_Y
+#define C_b_upper_bound_POSTS(R) \
+  POST(contains_join, !(G_satX0 || G_satY0) || box_sat(x, G_xs)) \
+  POST(x_wf, box_wf(x, G_xs)) KEEP_Y
 /* upper_bound_assign_if_exact(y): whatever it answers, no point of x is lost; true => the result contains y as well */
-_Bool FN_b_upper_bound_if_exact(BOX_T *x, const BOX_T *y) PRE_BXY ASSIGNS(FRAME_B)
-  POST(contains_join_when_true, !RET || !(G_satX0 || G_satY0) || box_sat(x, G_xs))
-  POST(keeps_x_when_false, RET || !G_satX0 || box_sat(x, G_xs))
-  POST(x_wf, box_wf(x, G_xs)) KEEP_Y;
-void FN_b_difference(BOX_T *x, const BOX_T *y) PRE_BXY ASSIGNS(FRAME_B)
-  POST(contains_difference, !(G_satX0 && !G_satY0) || box_sat(x, G_xs))
-  POST(x_wf, box_wf(x, G_xs)) KEEP_Y;
-void FN_b_topological_closure(BOX_T *x) PRE_BX ASSIGNS(FRAME_B)
-  POST(contains_x, !G_satX0 || box_sat(x, G_xs))
-  POST(x_wf, box_wf(x, G_xs));
+#define C_b_upper_bound_if_exact_POSTS(R) \
+  POST(contains_join_when_true, !(R) || !(G_satX0 || G_satY0) || box_sat(x, G_xs)) \
+  POST(keeps_x_when_false, (R) || !G_satX0 || box_sat(x, G_xs)) \
+  POST(x_wf, box_wf(x, G_xs)) KEEP_Y
+#define C_b_difference_POSTS(R) \
+  POST(contains_difference, !(G_satX0 && !G_satY0) || box_sat(x, G_xs)) \
+  POST(x_wf, box_wf(x, G_xs)) KEEP_Y
+#define C_b_topological_closure_POSTS(R) \
+  POST(contains_x, !G_satX0 || box_sat(x, G_xs)) \
+  POST(x_wf, box_wf(x, G_xs))
 /* unconstrain(Variable(v)), v < BOX_D: every point that agrees with a point of x outside coordinate v */
-void FN_b_unconstrain(BOX_T *x, uint64_t v) PRE_BX PRE(var, v < BOX_D) ASSIGNS(FRAME_B)
-  POST(cylinder, G_emptyX0 || !ALLK(v == 0 || mem(&G_xs0[0], GP(0)), v == 1 || mem(&G_xs0[1], GP(1))) || box_sat(x, G_xs))
-  POST(contains_x, !G_satX0 || box_sat(x, G_xs))
-  POST(x_wf, box_wf(x, G_xs));
+#define C_b_unconstrain_POSTS(R) \
+  POST(cylinder, G_emptyX0 || !ALLK(v == 0 || mem(&G_xs0[0], GP(0)), v == 1 || mem(&G_xs0[1], GP(1))) || box_sat(x, G_xs)) \
+  POST(contains_x, !G_satX0 || box_sat(x, G_xs)) \
+  POST(x_wf, box_wf(x, G_xs))
+
+#if defined(VERIF_CBMC)
+#define BOX_PRED1(OP) _Bool FN_b_##OP(const BOX_T *x) PRE_BX ASSIGNS(FRAME_B) C_b_##OP##_POSTS(RET);
+#define BOX_PRED2(OP) _Bool FN_b_##OP(const BOX_T *x, const BOX_T *y) PRE_BXY ASSIGNS(FRAME_B) C_b_##OP##_POSTS(RET);
+#define BOX_MUT2(OP)  void FN_b_##OP(BOX_T *x, const BOX_T *y) PRE_BXY ASSIGNS(FRAME_B) C_b_##OP##_POSTS(0);
+BOX_PRED1(is_empty) BOX_PRED1(is_universe) BOX_PRED1(is_bounded) BOX_PRED1(is_discrete) BOX_PRED1(is_topologically_closed)
+BOX_PRED2(contains) BOX_PRED2(strictly_contains) BOX_PRED2(is_disjoint_from) BOX_PRED2(equal)
+BOX_MUT2(intersection) BOX_MUT2(upper_bound) BOX_MUT2(difference)
+_Bool FN_b_upper_bound_if_exact(BOX_T *x, const BOX_T *y) PRE_BXY ASSIGNS(FRAME_B) C_b_upper_bound_if_exact_POSTS(RET);
+void FN_b_topological_closure(BOX_T *x) PRE_BX ASSIGNS(FRAME_B) C_b_topological_closure_POSTS(0);
+void FN_b_unconstrain(BOX_T *x, uint64_t v) PRE_BX PRE(var, v < BOX_D) ASSIGNS(FRAME_B) C_b_unconstrain_POSTS(0);
 #endif
 #endif
